@@ -4,6 +4,30 @@ Builder.vos Builder.vok Builder.required_vos: Builder.v /verif/coq/Base.vos /ver
 Spec.vo Spec.glob Spec.v.beautified Spec.required_vo: Spec.v /verif/coq/Base.vo /verif/coq/Layout.vo Builder.vo
 Spec.vio: Spec.v /verif/coq/Base.vio /verif/coq/Layout.vio Builder.vio
 Spec.vos Spec.vok Spec.required_vos: Spec.v /verif/coq/Base.vos /verif/coq/Layout.vos Builder.vos
+GbLemmas.vo GbLemmas.glob GbLemmas.v.beautified GbLemmas.required_vo: GbLemmas.v /verif/coq/Base.vo /verif/coq/Layout.vo Builder.vo
+GbLemmas.vio: GbLemmas.v /verif/coq/Base.vio /verif/coq/Layout.vio Builder.vio
+GbLemmas.vos GbLemmas.vok GbLemmas.required_vos: GbLemmas.v /verif/coq/Base.vos /verif/coq/Layout.vos Builder.vos
+Invariant.vo Invariant.glob Invariant.v.beautified Invariant.required_vo: Invariant.v /verif/coq/Base.vo /verif/coq/Layout.vo Builder.vo GbLemmas.vo
+Invariant.vio: Invariant.v /verif/coq/Base.vio /verif/coq/Layout.vio Builder.vio GbLemmas.vio
+Invariant.vos Invariant.vok Invariant.required_vos: Invariant.v /verif/coq/Base.vos /verif/coq/Layout.vos Builder.vos GbLemmas.vos
+StepLemmas.vo StepLemmas.glob StepLemmas.v.beautified StepLemmas.required_vo: StepLemmas.v /verif/coq/Base.vo /verif/coq/Layout.vo Builder.vo GbLemmas.vo Invariant.vo
+StepLemmas.vio: StepLemmas.v /verif/coq/Base.vio /verif/coq/Layout.vio Builder.vio GbLemmas.vio Invariant.vio
+StepLemmas.vos StepLemmas.vok StepLemmas.required_vos: StepLemmas.v /verif/coq/Base.vos /verif/coq/Layout.vos Builder.vos GbLemmas.vos Invariant.vos
+AtomStep.vo AtomStep.glob AtomStep.v.beautified AtomStep.required_vo: AtomStep.v /verif/coq/Base.vo /verif/coq/Layout.vo Builder.vo GbLemmas.vo Invariant.vo StepLemmas.vo
+AtomStep.vio: AtomStep.v /verif/coq/Base.vio /verif/coq/Layout.vio Builder.vio GbLemmas.vio Invariant.vio StepLemmas.vio
+AtomStep.vos AtomStep.vok AtomStep.required_vos: AtomStep.v /verif/coq/Base.vos /verif/coq/Layout.vos Builder.vos GbLemmas.vos Invariant.vos StepLemmas.vos
+Push.vo Push.glob Push.v.beautified Push.required_vo: Push.v /verif/coq/Base.vo /verif/coq/Layout.vo Builder.vo Spec.vo GbLemmas.vo Invariant.vo StepLemmas.vo AtomStep.vo
+Push.vio: Push.v /verif/coq/Base.vio /verif/coq/Layout.vio Builder.vio Spec.vio GbLemmas.vio Invariant.vio StepLemmas.vio AtomStep.vio
+Push.vos Push.vok Push.required_vos: Push.v /verif/coq/Base.vos /verif/coq/Layout.vos Builder.vos Spec.vos GbLemmas.vos Invariant.vos StepLemmas.vos AtomStep.vos
+OpenClose.vo OpenClose.glob OpenClose.v.beautified OpenClose.required_vo: OpenClose.v /verif/coq/Base.vo /verif/coq/Layout.vo Builder.vo Spec.vo GbLemmas.vo Invariant.vo StepLemmas.vo AtomStep.vo Push.vo
+OpenClose.vio: OpenClose.v /verif/coq/Base.vio /verif/coq/Layout.vio Builder.vio Spec.vio GbLemmas.vio Invariant.vio StepLemmas.vio AtomStep.vio Push.vio
+OpenClose.vos OpenClose.vok OpenClose.required_vos: OpenClose.v /verif/coq/Base.vos /verif/coq/Layout.vos Builder.vos Spec.vos GbLemmas.vos Invariant.vos StepLemmas.vos AtomStep.vos Push.vos
+Roundtrip.vo Roundtrip.glob Roundtrip.v.beautified Roundtrip.required_vo: Roundtrip.v /verif/coq/Base.vo /verif/coq/Layout.vo Builder.vo Spec.vo GbLemmas.vo Invariant.vo StepLemmas.vo AtomStep.vo Push.vo OpenClose.vo
+Roundtrip.vio: Roundtrip.v /verif/coq/Base.vio /verif/coq/Layout.vio Builder.vio Spec.vio GbLemmas.vio Invariant.vio StepLemmas.vio AtomStep.vio Push.vio OpenClose.vio
+Roundtrip.vos Roundtrip.vok Roundtrip.required_vos: Roundtrip.v /verif/coq/Base.vos /verif/coq/Layout.vos Builder.vos Spec.vos GbLemmas.vos Invariant.vos StepLemmas.vos AtomStep.vos Push.vos OpenClose.vos
+ToList.vo ToList.glob ToList.v.beautified ToList.required_vo: ToList.v /verif/coq/Base.vo /verif/coq/Layout.vo Builder.vo GbLemmas.vo Invariant.vo StepLemmas.vo
+ToList.vio: ToList.v /verif/coq/Base.vio /verif/coq/Layout.vio Builder.vio GbLemmas.vio Invariant.vio StepLemmas.vio
+ToList.vos ToList.vok ToList.required_vos: ToList.v /verif/coq/Base.vos /verif/coq/Layout.vos Builder.vos GbLemmas.vos Invariant.vos StepLemmas.vos
 Extract_C14.vo Extract_C14.glob Extract_C14.v.beautified Extract_C14.required_vo: Extract_C14.v /verif/coq/Layout.vo /verif/coq/Valid.vo /verif/coq/Types.vo Builder.vo Spec.vo
 Extract_C14.vio: Extract_C14.v /verif/coq/Layout.vio /verif/coq/Valid.vio /verif/coq/Types.vio Builder.vio Spec.vio
 Extract_C14.vos Extract_C14.vok Extract_C14.required_vos: Extract_C14.v /verif/coq/Layout.vos /verif/coq/Valid.vos /verif/coq/Types.vos Builder.vos Spec.vos
